@@ -1174,6 +1174,166 @@ def _uses_csys(label):
     return label.split(":")[-1] in _USES_CSYS
 
 
+# ----------------------------------------------------------------------------- structured near-miss names
+_NEAR_CACHE = {}
+
+
+def near_miss_names(seed=0):
+    """[(catalogue, family, name, system)]: names assembled from the catalogues' OWN building blocks (valid labels of the
+    single systems, the multi-system 'typical' names, the 2-qutrit base names) that are NOT in get_*_names():
+      mixed      qubit and qutrit labels in one product               (z0_01x0, x_z3, x-type1_z3-type1, x_01x90)
+      factors    one factor more than the largest listed system       (z0_z0_z0_z0, 01z0_01z0_01z0, x_x_x_x)
+      product    a '_'-product where the catalogue lists no products  (gate x_y, m-process x-type1_z-type1, ensemble z0_x0,
+                 2-qutrit gate base_base with equal bases / three bases)
+      typical    a multi-system typical name times a single label     (bell_phi_plus_z0, ghz_z0, bell_x)
+      separator  a LISTED product with wrong separator / affix / case (z0-z0, z0__z0, z0_z0_, _z0_z0, 'z0 z0', z0z0, Z0_Z0)
+    Every dispatcher must raise for each of them.  The selection is deterministic in `seed`; membership is re-checked
+    against the catalogue, so a name that a (changed) catalogue does list is never probed as a near-miss."""
+    if seed in _NEAR_CACHE:
+        return _NEAR_CACHE[seed]
+    import random as _random
+    rng = _random.Random(f"C17-near-miss-{seed}")
+    out, seen = [], set()
+
+    def pick(lst, k):
+        lst = sorted(lst)
+        return lst if len(lst) <= k else sorted(rng.sample(lst, k))
+
+    def add(cat, fam, name, system, listed):
+        if name not in listed and (cat, name) not in seen:
+            seen.add((cat, name))
+            out.append((cat, fam, name, system))
+
+    def plain(names):      # labels that contain no separator themselves
+        return [n for n in names if "_" not in n]
+
+    def typical(multi, singles):   # names of a multi-system list that are not '_'-products of single labels
+        ss = set(singles)
+        return [n for n in multi if not all(t in ss for t in n.split("_"))]
+
+    def separators(cat, good, system, listed):
+        a = good
+        for bad in (a.replace("_", "-", 1), a.replace("_", "__", 1), a + "_", "_" + a, a.replace("_", " ", 1),
+                    a.replace("_", "", 1), a.upper(), a.replace("_", "_ ", 1)):
+            if bad != a:
+                add(cat, "separator", bad, system, listed)
+
+    # ---- states
+    listed = set(ST.get_state_names())
+    q1, t1 = plain(ST.get_state_names_1qubit()), plain(ST.get_state_names_1qutrit())
+    ty2 = typical(ST.get_state_names_2qubit(), q1)
+    ty3 = typical(ST.get_state_names_3qubit(), q1 + ty2)
+    tyt = typical(ST.get_state_names_2qutrit(), t1)
+    for a, b in zip(pick(q1, 4), pick(t1, 4)):
+        add("state", "mixed", f"{a}_{b}", "2qubit", listed)
+        add("state", "mixed", f"{b}_{a}", "2qutrit", listed)
+        add("state", "mixed", f"{a}_{b}_{a}", "3qubit", listed)
+        add("state", "mixed", f"{b}_{b}_{a}", "2qutrit", listed)
+    for a, b in zip(pick(q1, 3), pick(q1, 3)[::-1]):
+        add("state", "factors", f"{a}_{b}_{a}_{b}", "3qubit", listed)
+    for a, b in zip(pick(t1, 3), pick(t1, 3)[::-1]):
+        add("state", "factors", f"{a}_{b}_{a}", "2qutrit", listed)
+    for t in pick(ty2, 2) + pick(ty3, 2):
+        for a in pick(q1, 2):
+            k = "3qubit"
+            add("state", "typical", f"{t}_{a}_{a}" if t in ty2 else f"{t}_{a}", k, listed)
+            add("state", "typical", f"{a}_{a}_{t}" if t in ty2 else f"{a}_{t}", k, listed)
+            add("state", "typical", f"{t}_{t}", k, listed)
+    for t in pick(tyt, 2) + pick([n for n in ST.get_state_names_1qutrit() if "_" in n], 1):
+        for a in pick(t1, 2):
+            add("state", "typical", f"{t}_{a}", "2qutrit", listed)
+            add("state", "typical", f"{a}_{t}", "2qutrit", listed)
+    for good, sysl in [(f"{a}_{b}", "2qubit") for a, b in zip(pick(q1, 2), pick(q1, 2)[::-1])] + \
+                      [(f"{a}_{b}", "2qutrit") for a, b in zip(pick(t1, 1), pick(t1, 1))]:
+        if good in listed:
+            separators("state", good, sysl, listed)
+    # ---- POVMs
+    listed = set(PT.get_povm_names())
+    q1, t1 = plain(PT.get_povm_names_1qubit()), plain(PT.get_povm_names_1qutrit())
+    ty2 = typical(PT.get_povm_names_2qubit(), q1)
+    for a, b in zip(pick(q1, 3), pick(t1, 3)):
+        add("povm", "mixed", f"{a}_{b}", "2qubit", listed)
+        add("povm", "mixed", f"{b}_{a}", "2qutrit", listed)
+        add("povm", "mixed", f"{a}_{b}_{a}", "3qubit", listed)
+    for a, b in zip(pick(q1, 2), pick(q1, 2)[::-1]):
+        add("povm", "factors", f"{a}_{b}_{a}_{b}", "3qubit", listed)
+    for a, b in zip(pick(t1, 2), pick(t1, 2)[::-1]):
+        add("povm", "factors", f"{a}_{b}_{a}", "2qutrit", listed)
+    for t in pick(ty2, 2):
+        for a in pick(q1, 2):
+            add("povm", "typical", f"{t}_{a}", "3qubit", listed)
+            add("povm", "typical", f"{a}_{t}", "3qubit", listed)
+    for good, sysl in [(f"{a}_{b}", "2qubit") for a, b in zip(pick(q1, 2), pick(q1, 2)[::-1])] + \
+                      [(f"{a}_{b}", "2qutrit") for a, b in zip(pick(t1, 1), pick(t1, 1))]:
+        if good in listed:
+            separators("povm", good, sysl, listed)
+    # ---- measurement processes (the catalogue lists no product at all)
+    listed = set(mprocess_names())
+    by = {}
+    for n in mprocess_names():
+        by.setdefault(ref_mprocess(n)[0], []).append(n)
+    q1, t1, q2 = by.get("1qubit", []), by.get("1qutrit", []), by.get("2qubit", [])
+    for a, b in zip(pick(q1, 3), pick(q1, 3)[::-1]):
+        add("mprocess", "product", f"{a}_{b}", "2qubit", listed)
+        add("mprocess", "factors", f"{a}_{b}_{a}", "3qubit", listed)
+        separators("mprocess", f"{a}_{b}", "2qubit", listed | {f"{a}_{b}"})
+    for a, b in zip(pick(t1, 2), pick(t1, 2)[::-1]):
+        add("mprocess", "product", f"{a}_{b}", "2qutrit", listed)
+    for a, b in zip(pick(q1, 2), pick(t1, 2)):
+        add("mprocess", "mixed", f"{a}_{b}", "2qubit", listed)
+        add("mprocess", "mixed", f"{b}_{a}", "2qutrit", listed)
+    for t in pick(q2, 2):
+        for a in pick(q1, 1):
+            add("mprocess", "typical", f"{t}_{a}", "3qubit", listed)
+            add("mprocess", "typical", f"{a}_{t}", "3qubit", listed)
+    # ---- state ensembles (1-qubit names only)
+    listed = set(ET.get_state_ensemble_names())
+    e1 = plain(ET.get_state_ensemble_names())
+    for a, b in zip(pick(e1, 3), pick(e1, 3)[::-1]):
+        add("ensemble", "product", f"{a}_{b}", "2qubit", listed)
+        separators("ensemble", f"{a}_{b}", "2qubit", listed | {f"{a}_{b}"})
+    for a, b in zip(pick(e1, 2), pick(plain(ST.get_state_names_1qutrit()), 2)):
+        add("ensemble", "mixed", f"{a}_{b}", "2qubit", listed)
+        add("ensemble", "mixed", b, "1qutrit", listed)
+    # ---- gates (and, through the same dispatcher list, effective Lindbladians)
+    listed = set(GT.get_gate_names())
+    g1, g2, g3 = plain(GT.get_gate_names_1qubit()), plain(GT.get_gate_names_2qubit()), plain(GT.get_gate_names_3qubit())
+    gt = plain(GT.get_gate_names_1qutrit())
+    sb = sorted(GT.get_gate_names_2qutrit_single_base_matrix())
+    tb = sorted(GT.get_gate_names_2qutrit_two_base_matrices())
+    for a, b in zip(pick(g1, 3), pick(g1, 3)[::-1]):
+        add("gate", "product", f"{a}_{b}", "2qubit", listed)
+        add("gate", "factors", f"{a}_{b}_{a}", "3qubit", listed)
+    for a, b in zip(pick(g2, 2), pick(g1, 2)):
+        add("gate", "typical", f"{a}_{b}", "3qubit", listed)
+        add("gate", "typical", f"{b}_{a}", "3qubit", listed)
+    for a, b in zip(pick(g1, 2), pick(gt, 2)):
+        add("gate", "mixed", f"{a}_{b}", "2qubit", listed)
+        add("gate", "mixed", f"{b}_{a}", "2qutrit", listed)
+    for a, b in zip(pick(gt, 2), pick(gt, 2)[::-1]):
+        add("gate", "product", f"{a}_{b}", "2qutrit", listed)
+    for a, b in zip(pick(sb, 3), pick(sb, 3)[::-1]):
+        add("gate", "product", f"{a}_{a}", "2qutrit", listed)               # equal bases
+        add("gate", "factors", f"{a}_{b}_{a}", "2qutrit", listed)           # three bases
+        add("gate", "product", f"{b}_{a}", "2qutrit", listed)               # (only if this order is not listed)
+        add("gate", "mixed", f"{a}_{pick(g1, 1)[0]}", "2qutrit", listed)
+    for good in pick(tb, 1):
+        separators("gate", good, "2qutrit", listed)
+    for good in pick(sb, 1):
+        for bad in (good + "_", "_" + good, good.upper(), good[1:], good + "0"):
+            add("gate", "separator", bad, "2qutrit", listed)
+    _NEAR_CACHE[seed] = out
+    return out
+
+
+def near_miss_probes(seed=0):
+    out = []
+    for cat, fam, nm, sysl in near_miss_names(seed):
+        for lab, th in dispatchers(cat, nm, sysl):
+            out.append({"mode": f"near-miss-{fam}", "catalogue": cat, "name": nm, "system": sysl, "ids": None, "form": lab, "thunk": th})
+    return out
+
+
 def unknown_probes():
     """list of dicts {mode, catalogue, name, system, ids, form, thunk}; every thunk must raise"""
     out = []
@@ -1246,7 +1406,7 @@ def run_probe(p):
 
 
 def check_unknown(ctx):
-    probes = unknown_probes()
+    probes = unknown_probes() + near_miss_probes(ctx.seed)
     for p in probes:
         ctx.count(f"probe/{p['mode']}/{p['catalogue']}")
         ctx.case(("probe", p["mode"], p["catalogue"], p["system"], p["name"], tuple(p["ids"]) if p["ids"] else None, p["form"]), nontrivial=True)
@@ -1262,6 +1422,10 @@ def check_unknown(ctx):
                 if ST.is_valid_state_name(nm) is not False:
                     ctx.violate("C17/state/unknown-name/is-valid", f"is_valid_state_name({nm!r}) is not False",
                                 {"kind": "probe", "mode": "is-valid", "catalogue": "state", "name": nm, "system": "1qubit", "ids": None, "form": "is_valid_state_name"})
+    for cat, fam, nm, sysl in near_miss_names(ctx.seed):
+        if cat == "state" and ST.is_valid_state_name(nm) is not False:
+            ctx.violate(f"C17/state/near-miss-{fam}/is-valid", f"is_valid_state_name({nm!r}) is not False although no get_state_names* list holds the name",
+                        {"kind": "probe", "mode": "is-valid", "catalogue": "state", "name": nm, "system": sysl, "ids": None, "form": "is_valid_state_name"})
     return len(probes)
 
 
@@ -2000,6 +2164,13 @@ def replay(ctx, data):
             print("is_valid_state_name ->", v, "(reference: False)")
             return 0 if v is False else 1
         bad = 0
+        if str(r.get("mode", "")).startswith("near-miss"):
+            for lab, th in dispatchers(r["catalogue"], r["name"], r["system"]):
+                if lab == r["form"]:
+                    got = run_probe({"thunk": th, "form": lab})
+                    print(f"name {r['name']!r} listed by the catalogue: False; reference: must raise; implementation:", got or "raised")
+                    bad += got is not None
+            return 1 if bad else 0
         for p in unknown_probes():
             if (p["mode"], p["catalogue"], p["name"], p["system"], p["ids"], p["form"]) == \
                     (r["mode"], r["catalogue"], r["name"], r["system"], r.get("ids"), r["form"]):
